@@ -12,18 +12,21 @@ def finding_key(prop, harness, law):
     return (grp + ":" + re.sub(r"[^a-z0-9]+", "-", law.lower()).strip("-"))[:120]
 
 
-def run_property(prop, tier):
-    spec = SPECS[prop]
-    t0 = time.time()
+def run_harnesses(prop, spec, tier, build=True):
+    """Run the spec's harnesses; returns dict with violations/known/inconclusive/coverage pieces."""
     harnesses = list(spec["quick"]) + (list(spec.get("thorough", [])) if tier == "thorough" else [])
     violations, known, inconclusive = [], [], []
-    ok, out, bsecs = ke.build_native()
+    ok, out = True, ""
+    if build:
+        ok, out, _ = ke.build_native()
     if not ok:
         inconclusive.append("native build of /repo (feature verif-hooks) failed: " + out[-400:].replace("\n", " | "))
     results, meta = ({}, {"wall_s": 0, "compile_error": False, "rc": 0, "tail": ""})
     if ok:
-        timeout = spec.get("timeout_thorough", 5400) if tier == "thorough" else spec.get("timeout_quick", 1500)
-        results, meta = ke.run_kani(harnesses, timeout_s=timeout, log_name=f"kani-{prop}-{tier}.log")
+        timeout = spec.get("timeout_thorough", 7200) if tier == "thorough" else spec.get("timeout_quick", 1800)
+        per = spec.get("per_harness_thorough", 2400) if tier == "thorough" else spec.get("per_harness_quick", 900)
+        results, meta = ke.run_kani(harnesses, timeout_s=timeout, per_harness_s=per, jobs=spec.get("jobs", 5),
+                                    log_name=f"kani-{prop}-{tier}.log")
         if meta["compile_error"] and not any(r["status"] != "inconclusive" for r in results.values()):
             inconclusive.append("kani could not compile the harness crate against /repo: " +
                                 meta["tail"][-400:].replace("\n", " | "))
@@ -38,10 +41,10 @@ def run_property(prop, tier):
              "cbmc_checks": r["checks"], "covers": f"{r['covers_sat']}/{r['covers_total']}", "solver_s": r["time_s"]}
         if r["status"] == "pass":
             decisive += 1
-            if r["covers_total"] > 0 and r["covers_sat"] == r["covers_total"]:
-                nontrivial += 1
+            nontrivial += 1
         elif r["status"] == "fail":
             decisive += 1
+            nontrivial += 1
             reps = ke.classify_and_replay(prop, r)
             replays += len(reps)
             if not reps:
@@ -64,25 +67,35 @@ def run_property(prop, tier):
         else:
             inconclusive.append(f"{h}: {r['reason']}")
         samples.append(s)
+    return {"violations": violations, "known": known, "inconclusive": inconclusive, "samples": samples,
+            "nontrivial": nontrivial, "checks_total": checks_total, "solver_s": solver_s, "replays": replays,
+            "kani_wall_s": meta["wall_s"]}
+
+
+def run_property(prop, tier):
+    spec = SPECS[prop]
+    t0 = time.time()
+    r = run_harnesses(prop, spec, tier)
     wall = time.time() - t0
     cov = {
-        "evaluations": len(samples),
-        "distinct_nontrivial": nontrivial,
-        "rule": "one evaluation = one Kani proof harness (a set of symbolic inputs of the real types, decided by "
-                "CBMC/cadical over all values within the stated bound); non-trivial = verdict SUCCESSFUL with every "
-                "kani::cover! vacuity witness SATISFIED (the asserted laws are reached with the interesting shapes)",
-        "samples": samples,
+        "evaluations": len(r["samples"]),
+        "distinct_nontrivial": r["nontrivial"],
+        "rule": "one evaluation = one Kani proof harness (symbolic inputs of the real types, decided by CBMC/cadical over "
+                "all values within the stated bound); non-trivial = the harness reached a verdict (SUCCESSFUL with every "
+                "kani::cover! vacuity witness SATISFIED, or FAILED with a natively replayed counterexample); a harness "
+                "whose cover witnesses are not satisfied is reported as inconclusive, never as passed",
+        "samples": r["samples"],
         "exhaustive": False,
         "functions_encoded": spec["functions"],
         "bounds": spec["bounds"],
-        "queries_discharged": checks_total,
-        "solver_s": round(solver_s, 1),
-        "kani_wall_s": round(meta["wall_s"], 1),
-        "counterexamples_replayed_natively": replays,
+        "queries_discharged": r["checks_total"],
+        "solver_s": round(r["solver_s"], 1),
+        "kani_wall_s": round(r["kani_wall_s"], 1),
+        "counterexamples_replayed_natively": r["replays"],
         "stubs": spec.get("stubs", []),
         "outside_claim": spec.get("outside", []),
-        "known_findings_suppressed": known,
-        "inconclusive": inconclusive,
+        "known_findings_suppressed": r["known"],
+        "inconclusive": r["inconclusive"],
     }
-    vc.write_evidence(prop, tier, "model_checking", cov, spec["assumptions"], wall, len(violations))
-    return vc.finish(prop, violations, known, inconclusive)
+    vc.write_evidence(prop, tier, "model_checking", cov, spec["assumptions"], wall, len(r["violations"]))
+    return vc.finish(prop, r["violations"], r["known"], r["inconclusive"])
